@@ -299,6 +299,11 @@ class Lowerer:
             r.bases.append(b['type'].get('desugaredQualType') or b['type']['qualType'])
 
     def collect_func(self, n, scope, cls):
+        if n['id'] in self.funcs:
+            # the same declaration dumped again (specialisations of a member template are listed under every
+            # redeclaration of the template, with the body only once): keep the first, take the body if it is new
+            self.funcs[n['id']].absorb(n)
+            return
         prev = n.get('previousDecl')
         if prev and prev in self.funcs:
             f = self.funcs[prev]
